@@ -15,7 +15,12 @@ def run(ctx):
     seqlib.report_journal_objects(ctx)
     if ok_go:
         args = ["-seqs", "30", "-ops", "400", "-c10", "40"] if ctx.tier == "thorough" else ["-seqs", "6", "-ops", "250", "-c10", "50"]
-        lines, tr = seqlib.run_seq(ctx, args)
+        lines, tr = seqlib.run_seq(ctx, args + ["-locks"])
+        # a transaction that takes a lock again after giving it back answers — and refills the inode cache and the name cache — from what it
+        # read under its first tenure (the journal operation keeps every object it has read)
+        seqlib.two_phase(ctx, lines, ok_drv, "C10", "What the transaction read before it gave the lock back is stale once another request has committed in between; after "
+                         "an eviction or a forgotten inode the stale copy becomes the cached inode and the name cache is rebuilt from stale directory blocks: the running "
+                         "server differs from a restarted one")
         if lines is not None:
             seqlib.analyse(ctx, lines, tr, ok_drv, "C10", relevant_ops={"restart"})
             h = ctx.cov.get("histogram", {})
